@@ -10,10 +10,12 @@ from specs import dexreader as R
 
 DEX = "androguard/core/dex/__init__.py"
 META = {
-    "technique": 'contract-based deductive verification: symbolic execution of the real functions against sidecar contracts (z3/cvc5) for the proved units; bounded contract evaluation (enumerated scope / independent writer) for the rest',
+    "technique": 'contract-based deductive verification: symbolic execution of the real functions against sidecar contracts (z3/cvc5) for the proved units, inductive loop invariants and termination variants on the real loops (unbounded in length and iteration count); bounded contract evaluation (enumerated scope / independent writer) for the rest',
     "level": "other",
     "partial": True,
-    "level_text": "Proof (carriers, symbolic bytes): ClassDataItem.__init__/_load_elements with EncodedField/EncodedMethod.__init__ and "
+    "level_text": "Loop contract (unbounded): ClassDataItem._load_elements with the real EncodedField constructor and LEB128 reader "
+                  "on a member group of any size in a file of any length: element j carries the sum of the index differences up to "
+                  "its own and its own flags (ghost functions defined by the file content, Skolem index). Proof (carriers, symbolic bytes): ClassDataItem.__init__/_load_elements with EncodedField/EncodedMethod.__init__ and "
                   "adjust_idx decode the four member groups in file order with the declared sizes and turn the index *differences* "
                   "into indices by prefix sums (group sizes 0..2 each, all diffs/flags/code offsets symbolic); the DEX lookup helpers "
                   "(get_class, get_encoded_method_descriptor, get_encoded_field_descriptor, get_encoded_methods_class, "
